@@ -104,3 +104,5 @@ Definition mk_cfg (cap : nat) (bdur : Z) (ignore : bool) (item_size : Z) (should
      c_costfn := if use_costfn
                  then Some (fun v => default 0 ((list_to_map costs : gmap N Z) !! v))
                  else None |}.
+
+Definition dump_pcosts (p : policy) : list (N * Z) := map_to_list (p_costs p).
